@@ -546,7 +546,7 @@ theorem authorityPhase_map (A : Block) (s : AuthState)
     { facts := insertAll s.world.facts A.facts, rules := s.world.rules ++ A.rules } with ⟨w2, _ | e⟩
   · simp only [failedChecks_map cfg f w2.facts CheckId.authorizer s.checks hsc,
       failedChecks_map cfg f w2.facts (CheckId.block 0) A.checks hAc,
-      firstPolicy_map cfg f w2.facts s.policies hsp, List.map_nil]
+      firstPolicy_map cfg f w2.facts s.policies hsp]
   · rfl
 
 /-- Any rule transformer that preserves every rule and query of the token and of the
